@@ -220,7 +220,7 @@ def cases_v(fam, cases):
         items.append("  (" + coqterm.term(c["coq_in"]) + ",\n   " + coqterm.term(c["coq_obs"]) + ")")
     lines.append(";\n".join(items))
     lines.append("].")
-    mchk = ("(kv_model_chk %s)" % fam["chk"]) if fam.get("model_chk") else "(fun _ => true)"
+    mchk = ("(%s %s)" % (fam.get("model_chk_fn", "kv_model_chk"), fam["chk"])) if fam.get("model_chk") else "(fun _ => true)"
     lines.append('Goal True. let v := eval vm_compute in (find_bad %s cases) in idtac "BADCORR" v. '
                  'let v := eval vm_compute in (find_bad %s cases) in idtac "BADCHK" v. '
                  'let v := eval vm_compute in (find_bad %s cases) in idtac "BADMODEL" v. exact I. Qed.' % (fam["corr"], fam["chk"], mchk))
